@@ -127,3 +127,19 @@ func TestFindingRepeatedFileOptionOrder(t *testing.T) {
 		t.Log("REPRODUCED: compiled value of the repeated file option changes")
 	}
 }
+
+// TestReplay checks that the registered replayer reproduces a finding from a recorded case and is
+// silent on a harmless one.
+func TestReplay(t *testing.T) {
+	bad := `{"seed":"x.proto","input":"syntax = \"proto3\";\nmessage M {\n  int32 // see a */ b\n  a = 1;\n}\n"}`
+	what, violated := replay([]byte(bad))
+	t.Log(what)
+	if !violated || !strings.Contains(what, "output-unparseable/line-comment-containing-block-comment-end") {
+		t.Fatalf("expected the unparseable-output finding, got %v %q", violated, what)
+	}
+	good := `{"seed":"x.proto","input":"syntax = \"proto3\";\n\n// M\nmessage M {\n  int32 a = 1; // a\n}\n"}`
+	what, violated = replay([]byte(good))
+	if violated {
+		t.Fatalf("unexpected violation: %s", what)
+	}
+}
